@@ -497,10 +497,10 @@ fn main() {
             cfgs.push(Config { n, seq_calls: 1, conc_calls: 3, full_menu: false, bound: if q { 4 } else { big } });
         }
         if !q {
-            cfgs.push(Config { n: 4, seq_calls: 1, conc_calls: 3, full_menu: false, bound: 5 });
+            cfgs.push(Config { n: 4, seq_calls: 1, conc_calls: 3, full_menu: false, bound: 8 });
         }
         for n in 2..=5 {
-            cfgs.push(Config { n, seq_calls: 1, conc_calls: 2, full_menu: true, bound: if q { 2 } else { 3 } });
+            cfgs.push(Config { n, seq_calls: 1, conc_calls: 2, full_menu: true, bound: if q { 2 } else { 4 } });
         }
         let total_cap = Duration::from_secs(if q { 50 } else { 800 });
         for cfg in &cfgs {
@@ -535,7 +535,7 @@ fn main() {
         &ctx,
         rep,
         Spec {
-            rule: "executions of the real GrpcClient over N fake endpoints; choice points = which outstanding request to answer (concurrent phase) and the answer kind per (call, endpoint) attempt; configurations (see `configs`): sequential 3 calls, class menu {ok, unavailable, invalid-argument}, N=1..5, every assignment; sequential 2 calls, full menu (ok, 5 network kinds incl. transport error, 6 non-network kinds incl. undecodable message), N=1..2 (quick) / 1..3 (thorough), every assignment; sequential 3 calls, full menu, N=1..5, <=3 (quick) / <=4 (thorough) non-default answers; 2 concurrent calls with every interleaving of their responses + 1 follow-up call, class menu, N=1..5, every assignment; 3 concurrent calls, class menu, N=2..3 <=4 deviations (quick) / N=2..3 every assignment and N=4 <=5 deviations (thorough); 2 concurrent calls full menu N=2..5 <=2/<=3 deviations; every execution ends with a probe call in which every endpoint fails.  evaluation = one execution (distinct choice sequence of its configuration); non-trivial = at least one non-ok answer; state = distinct observation trace (attempted endpoints, answers, results); transition = one answered request; classes `exec:<set>` = set of per-call outcomes in an execution (o ok at first endpoint, f ok after fail-over, x all endpoints failed, e non-network error), `call:*` = per-call totals",
+            rule: "executions of the real GrpcClient over N fake endpoints; choice points = which outstanding request to answer (concurrent phase) and the answer kind per (call, endpoint) attempt; configurations (see `configs`): sequential 3 calls, class menu {ok, unavailable, invalid-argument}, N=1..5, every assignment; sequential 2 calls, full menu (ok, 5 network kinds incl. transport error, 6 non-network kinds incl. undecodable message), N=1..2 (quick) / 1..3 (thorough), every assignment; sequential 3 calls, full menu, N=1..5, <=3 (quick) / <=4 (thorough) non-default answers; 2 concurrent calls with every interleaving of their responses + 1 follow-up call, class menu, N=1..5, every assignment; 3 concurrent calls, class menu, N=2..3 <=4 deviations (quick) / N=2..3 every assignment and N=4 <=8 deviations (thorough); 2 concurrent calls full menu N=2..5 <=2/<=4 deviations; every execution ends with a probe call in which every endpoint fails.  evaluation = one execution (distinct choice sequence of its configuration); non-trivial = at least one non-ok answer; state = distinct observation trace (attempted endpoints, answers, results); transition = one answered request; classes `exec:<set>` = set of per-call outcomes in an execution (o ok at first endpoint, f ok after fail-over, x all endpoints failed, e non-network error), `call:*` = per-call totals",
             assumptions: &[
                 "network-class errors are the gRPC codes Unavailable, Unknown, DeadlineExceeded, Aborted and failures of the transport itself (the crate's documented classification); every other status and an undecodable response message are non-network errors",
                 "under concurrent calls 'the endpoint that succeeds becomes the first one tried next' is read as: the first endpoint tried by the next call is one of the endpoints that succeeded in the concurrent batch",
